@@ -14,6 +14,7 @@ Do(ev) ==
     [] ev.e = "Receive" -> Receive
     [] ev.e = "Release" -> Release
     [] ev.e = "Empty" -> Empty
+    [] ev.e = "Cycles" -> Cycles((((ev.a[2] % geo.depth) * (65536 % geo.depth)) + (ev.a[1] % geo.depth)) % geo.depth)
     [] OTHER -> FALSE
 
 TraceInit == Init /\ ti = 1
